@@ -286,6 +286,7 @@ class GraphStream(TripleStream):
         self.check_usable()
         graph_start = jelly.RdfGraphStart()
         try:
+            self.encoder.begin_row()
             [*graph_rows] = self.encoder.encode_graph(graph_id, graph_start)
         except BaseException:
             self.failed = True
